@@ -83,6 +83,8 @@ type Result struct {
 	// when this result describes a callee reached by delegation (`return f(args...)`): terms of the arguments per parameter
 	Subst   map[ssa.Value]aff
 	SSub    map[ssa.Value]string
+	FSub    map[fref]aff
+	FSSub   map[fref]string
 	Val     map[ssa.Value]lat
 	Returns []*ssa.Return
 	Steps   int
